@@ -371,6 +371,9 @@ func writeSchemas() {
 	schemaPaths["builtin:noimports"] = w("noimports/main.bop", noImports)
 	schemaPaths["builtin:invalid-ring"] = w("invalid-ring/main.bop", structRing)
 	schemaPaths["builtin:deep"] = w("deep/main.bop", deepSchema)
+	// names that differ only in the case of their first letter (one Go name): accepted or rejected, the answer - error
+	// text included - has to be the same under every order
+	schemaPaths["builtin:odd-case"] = w("odd-case/main.bop", "message OcPacket { 1 -> int32 data; 2 -> string Data; 3 -> bool other; 4 -> int32 Other; }\nunion OcU { 1 -> message OcM { 1 -> int32 x; 2 -> int32 X; 3 -> int32 y; 4 -> int32 Y; } }\n")
 	for name, text := range ringSchemas() {
 		schemaPaths["ring:"+name] = w(name+"/main.bop", text)
 	}
@@ -657,7 +660,7 @@ func main() {
 	})
 
 	// map orders
-	allSchemas := append([]string{schemaPaths["builtin:maps"], small, schemaPaths["builtin:noimports"], schemaPaths["builtin:invalid-ring"], schemaPaths["builtin:deep"]}, repoSchemas()...)
+	allSchemas := append([]string{schemaPaths["builtin:maps"], small, schemaPaths["builtin:noimports"], schemaPaths["builtin:invalid-ring"], schemaPaths["builtin:deep"], schemaPaths["builtin:odd-case"]}, repoSchemas()...)
 	var cheap []*unit
 	allOps := append(append([]string{}, alphabet...), extraOps...)
 	// one-deviation pass: deviation values 0..7 cover every start of a map of up to 8 entries, 0..15 of up to 13
